@@ -4,7 +4,8 @@ import random
 
 from . import spec as S
 
-CLASSES = ["K1", "K2", "K3", "K4", "K5", "K6", "K7", "K8", "K9", "K10", "K11", "K12"]
+# K12 (deliberate feature combinations) is drawn three times as often as the other classes
+CLASSES = ["K1", "K2", "K3", "K4", "K12", "K5", "K6", "K7", "K12", "K8", "K9", "K10", "K11", "K12"]
 RUN_TYPES = ["AtMostKInARow", "AtLeastKInARow", "ExactlyKInARow", "ExactlyK"]
 
 
@@ -340,6 +341,10 @@ def gen_combo(rng):
     cons = []
     rcc = rng.random() < 0.4
     r = rng.random()
+    if "Tr" in crossing:
+        r = r * 0.9 if r > 0.25 else r + 0.0   # with a preamble, excluded *basic* levels matter more (r in [.35,.5))
+        if 0.25 <= r < 0.55:
+            r = 0.4
     if r < 0.35:
         d = rng.choice([n for n in ("W", "V") if n in F])
         cons.append({"type": "Exclude", "factor": d, "level": rng.choice(F[d]["levels"])[0]})
@@ -351,9 +356,10 @@ def gen_combo(rng):
     if any(F[n]["kind"] == "derived" for n in crossing) and rng.random() < 0.8:
         rcc = False
     T = size + pre
-    if rng.random() < 0.45:
+    weighted_crossed = any(w > 1 for n in crossing for _, w in F[n]["levels"])
+    if rng.random() < (0.8 if weighted_crossed else 0.45):
         mt = rng.choice([size + 1, size + 1, size + 2, 2 * size - 1, 2 * size, 2 * size + 1]) + pre
-        mt = max(2, min(mt, 10))
+        mt = max(2, min(mt, 8 if pre else 9))
         cons.append({"type": "MinimumTrials", "trials": mt})
         T = max(T, mt)
     if rng.random() < 0.45 or crossing == ["A"]:
